@@ -38,6 +38,14 @@ XLe(a, k) == a # NaN /\ a <= k
 XGt(a, k) == a # NaN /\ a > k
 XGe(a, k) == a # NaN /\ a >= k
 
+(* at or above the upper end of full support: the last supported interval; exactly at the end, where evaluation is from  *)
+(* the left, the last supported interval of positive length (the code walks down over repeated knots)                  *)
+TopCenter(nn, tt, xx) ==
+    LET na == Len(tt) - nn - 1
+        pos == {cc \in nn .. na - 1 : tt[cc + 1] # tt[cc + 2]}
+    IN  IF xx = tt[na + 1] /\ pos # {} THEN CHOOSE cc \in pos : \A d \in pos : d <= cc
+        ELSE IF xx = tt[na + 1] THEN nn ELSE na - 1
+
 Init ==
     /\ pc = "pick_t" /\ n \in Orders /\ t \in {<<e>> : e \in ExtraLens}
     /\ x = 0 /\ lo = 0 /\ hi = 0 /\ c = -1 /\ it = 0 /\ ok = FALSE
@@ -64,7 +72,7 @@ RangeTest ==
 Clamp ==
     /\ pc = "clamp"
     /\ IF XLt(x, T(n)) THEN c' = n /\ pc' = "done" /\ ok' = TRUE /\ UNCHANGED <<lo, hi>>
-       ELSE IF XGe(x, T(naxes)) THEN c' = naxes - 1 /\ pc' = "done" /\ ok' = TRUE /\ UNCHANGED <<lo, hi>>
+       ELSE IF XGe(x, T(naxes)) THEN c' = TopCenter(n, t, x) /\ pc' = "done" /\ ok' = TRUE /\ UNCHANGED <<lo, hi>>
        ELSE lo' = n /\ hi' = nk - 2 /\ pc' = "probe" /\ UNCHANGED <<c, ok>>
     /\ UNCHANGED <<n, t, x, it>>
 
@@ -102,7 +110,7 @@ PostC04(nn, tt, xx, okk, cc) ==
         /\ okk => /\ cc >= nn /\ cc <= na - 1                                    \* Range
                   /\ (XGe(xx, TT(nn)) /\ XLt(xx, TT(na))) => (XGe(xx, TT(cc)) /\ XLt(xx, TT(cc + 1)))   \* Bracket
                   /\ XLt(xx, TT(nn)) => cc = nn                                  \* nearest supported interval
-                  /\ XGe(xx, TT(na)) => cc = na - 1                              \* ... and the last one at/above its right end
+                  /\ XGe(xx, TT(na)) => cc = TopCenter(nn, tt, xx)              \* ... and the last one (of positive length, exactly at the end) at/above its right end
 
 C04Post == Finished => PostC04(n, t, x, ok, c)
 
